@@ -579,6 +579,20 @@ def make_module_class():
                 return self.final_status(IDLE, 'done')
             return Finish
 
+        # cleanup sequences that take more than one poll cycle (stop / restart / error arriving while one is running)
+        slow_cleanup = False
+
+        def on_stop(self, sm):
+            return self.state_cleanup if self.slow_cleanup else None
+
+        def on_restart(self, sm):
+            return self.state_cleanup if self.slow_cleanup else None
+
+        @status_code(BUSY, 'cleaning up')
+        def state_cleanup(self, sm):
+            self.log_.append(('S', 'cleanup', 'retry' if sm.init else 'done'))
+            return Retry if sm.init else None
+
         def state_c(self, sm):   # no status attached: BUSY is the documented default for a start function
             return self._step('a', sm)
 
@@ -683,6 +697,7 @@ def _run_module(r, rng, n, inj, Mod, IDLE, BUSY, ERROR):
         import threading
         m.pollInfo = PollInfo(1, threading.Event())
         m.log_ = log = []
+        m.slow_cleanup = rng.random() < 0.4
         m.script = [rng.choice(['retry', 'retry', 'next', 'finish', 'raise', 'final']) for _ in range(rng.randint(0, 8))]
         ops = [rng.choice(['poll', 'poll', 'poll', 'start', 'stop', 'go']) for _ in range(rng.randint(3, 12))]
         script0 = list(m.script)
